@@ -32,11 +32,12 @@ type OutParam struct {
 }
 
 var outParams = map[string]OutParam{
-	"oidc.ParseToken":            {1, false},
-	"ParseToken":                 {1, false},
-	"oidc.CheckSignature":        {3, true},
-	"CheckSignature":             {3, true},
-	"ValidateRefreshTokenScopes": {1, true},
+	"oidc.ParseToken":                {1, false},
+	"ParseToken":                     {1, false},
+	"oidc.CheckSignature":            {3, true},
+	"CheckSignature":                 {3, true},
+	"ValidateRefreshTokenScopes":     {1, true},
+	"CopyRequestObjectToAuthRequest": {0, true},
 }
 
 type FuncSpec struct {
@@ -489,6 +490,9 @@ func (t *tr) isNilValue(e ast.Expr) bool {
 }
 
 func (t *tr) ret(r *ast.ReturnStmt) string {
+	if t.spec.Ret == RetVal && len(r.Results) == 0 && t.spec.RetParam != "" {
+		return t.spec.RetParam
+	}
 	switch t.spec.Ret {
 	case RetErr:
 		if len(r.Results) != 1 {
@@ -584,6 +588,9 @@ func memo(f func() string) cont {
 func (t *tr) block(stmts []ast.Stmt, k cont) string {
 	if len(stmts) == 0 {
 		if k == nil {
+			if t.spec.Ret == RetVal && t.spec.RetParam != "" {
+				return t.spec.RetParam // void function: its effect is the final value of the pointer parameter
+			}
 			return t.bad("fallthrough without return", nil)
 		}
 		return k()
@@ -604,6 +611,11 @@ func (t *tr) block(stmts []ast.Stmt, k cont) string {
 		if c, ok := x.X.(*ast.CallExpr); ok {
 			if ignorableCall(c) {
 				return rest()
+			}
+			// f(v, ...) where f writes through its pointer argument v:  let v := f v ...
+			if op, ok := outParams[exprString(c.Fun)]; ok && op.Keep && op.Index < len(c.Args) {
+				name := strings.TrimPrefix(exprString(c.Args[op.Index]), "&")
+				return "let " + t.ident(name) + " := " + t.expr(c) + ";\n" + t.pad() + rest()
 			}
 			// mutator method on a model value: recv.SetX(a)  ->  let recv := recv.SetX a
 			if sel, ok := c.Fun.(*ast.SelectorExpr); ok && strings.HasPrefix(sel.Sel.Name, "Set") {
@@ -700,6 +712,13 @@ func (t *tr) block(stmts []ast.Stmt, k cont) string {
 			}
 		}
 		if len(x.Lhs) == 1 && len(x.Rhs) == 1 {
+			// v.F = e   ->   let v := { v with F := e }
+			if sel, ok := x.Lhs[0].(*ast.SelectorExpr); ok {
+				if id, ok := sel.X.(*ast.Ident); ok {
+					v := t.ident(id.Name)
+					return "let " + v + " := { " + v + " with " + sel.Sel.Name + " := " + t.expr(x.Rhs[0]) + " };\n" + t.pad() + rest()
+				}
+			}
 			if c, ok := x.Rhs[0].(*ast.CallExpr); ok && exprString(c.Fun) == "new" {
 				return rest() // pure allocation of an out-parameter target
 			}
@@ -707,6 +726,12 @@ func (t *tr) block(stmts []ast.Stmt, k cont) string {
 		}
 		return t.bad("assignment", x)
 	case *ast.IfStmt:
+		// if C { v.F = e; ... }   (no else, only assignments to one variable)  ->  let v := if C then {v with ...} else v
+		if x.Init == nil && x.Else == nil {
+			if v, upd, ok := t.assignOnly(x.Body.List); ok {
+				return "let " + v + " := (if " + t.expr(x.Cond) + " then " + upd + " else " + v + ");\n" + t.pad() + rest()
+			}
+		}
 		cont := rest
 		// if err := f(...); err != nil { body }
 		if x.Init != nil {
@@ -764,6 +789,38 @@ func (t *tr) elseBranch(e ast.Stmt, cont cont) string {
 		return t.block([]ast.Stmt{y}, cont)
 	}
 	return t.bad("else", e)
+}
+
+// assignOnly recognises a block that only assigns to fields of one variable (or to the variable itself)
+// and renders the updated value.
+func (t *tr) assignOnly(stmts []ast.Stmt) (v string, updated string, ok bool) {
+	if len(stmts) == 0 {
+		return "", "", false
+	}
+	var fields []string
+	for _, st := range stmts {
+		as, isAs := st.(*ast.AssignStmt)
+		if !isAs || len(as.Lhs) != 1 || len(as.Rhs) != 1 {
+			return "", "", false
+		}
+		switch l := as.Lhs[0].(type) {
+		case *ast.SelectorExpr:
+			id, isID := l.X.(*ast.Ident)
+			if !isID || (v != "" && v != t.ident(id.Name)) {
+				return "", "", false
+			}
+			v = t.ident(id.Name)
+			fields = append(fields, l.Sel.Name+" := "+t.expr(as.Rhs[0]))
+		case *ast.Ident:
+			if v != "" || len(stmts) != 1 || l.Name == "err" {
+				return "", "", false
+			}
+			return t.ident(l.Name), t.expr(as.Rhs[0]), true
+		default:
+			return "", "", false
+		}
+	}
+	return v, "{ " + v + " with " + strings.Join(fields, ", ") + " }", true
 }
 
 // switch tag { case a, b: ...; default: ... }  ->  if-chain on equality (no fallthrough)
